@@ -379,7 +379,7 @@ def run_personalize_binding(acc, tier):
     grid = [(algo, n, P, frac, burn) for algo in ("mean_posterior", "mode_posterior") for n in (6, 9)
             for P in (2, 3) for frac in (0.5, 1.0) for burn in (0.0, 0.5)]
     if tier == "quick":
-        grid = grid[::2]
+        grid = [g for g in grid if g[1] == 6]
     for name, n_iter, P, frac, burn in grid:
         ann = {"do_annealing": True, "initial_temperature": 3, "n_plateau": P, "n_iter_frac": frac}
         case = {"machine": "personalize", "algorithm": name, "n_iter": n_iter, "annealing": ann, "burn_in_frac": burn}
